@@ -54,7 +54,7 @@ function inc(k, n = 1) { W.counters[k] = (W.counters[k] || 0) + n; }
 function violate(oracle, detail) { if (!W.violation) W.violation = { oracle, detail, step: W.step }; }
 function wasmReset() {
   W.memory = new WebAssembly.Memory({ initial: 4, maximum: 64 });
-  W.brk = BASE; W.allocs = new Map(); W.objs = new Map(); W.armGrow = false; W.armThrow = false; W.pendingCall = null; W.lastReturn = null;
+  W.brk = BASE; W.allocs = new Map(); W.objs = new Map(); W.armGrow = false; W.armThrow = false; W.pendingCall = null; W.lastReturn = null; W.lastReturnIsErr = false;
   W.violation = null; W.log = []; W.nextObjId = 1; W.step = 0;
 }
 function ensureMem(end) { while (end > W.memory.buffer.byteLength) W.memory.grow(1); }
@@ -186,7 +186,7 @@ function exportFn(name) {
     if (!call || call.abi !== name) { violate("HARNESS", `unexpected export call ${name}`); return 0; }
     W.pendingCall = null;
     const m = call.method;
-    const res = m.ret && (m.ret.kind === "resbox" || m.ret.kind === "resstruct");
+    const res = m.ret && (m.ret.kind === "resbox" || m.ret.kind === "resstruct" || m.ret.kind === "reserr");
     const viaBuf = res || (m.ret && m.ret.kind === "struct");
     checkArgs(name, args, viaBuf);
     if (W.armThrow) { W.armThrow = false; inc("fault_export_threw_fired"); throw new Error("injected fault: Rust panic routed through diplomat_throw_error_js"); }
@@ -210,6 +210,15 @@ function exportFn(name) {
         if (res) dv.setUint8(flagAt, 1);
         W.lastReturn = { kind: "struct", fields, def: sdef };
         inc("struct_returned");
+        return;
+      }
+      if (res && !arm && m.ret.kind === "reserr") {
+        // the error arm carries an opaque that borrows whatever its own lifetime arguments allow
+        inc("fault_arm_err_fired"); inc("fault_arm_err_with_borrowing_payload_fired");
+        const compute = borrowComputer(m, call);
+        const e = newObj(m.ret.err.ty); e.slots = m.ret.err.args.map((a) => compute(a === "static" ? null : a));
+        const dv = new DataView(W.memory.buffer); dv.setUint32(args[0], e.addr, true); dv.setUint8(args[0] + 4, 0);
+        W.lastReturn = e; W.lastReturnIsErr = true;
         return;
       }
       if (res && !arm) { inc("fault_arm_err_fired"); new Uint8Array(W.memory.buffer)[args[0] + 4] = 0; return; }
@@ -302,6 +311,7 @@ function genTrace(spec, seed, bridge, run) {
       // the fields of the returned struct are spread over the free slots (the executor does the same)
       if (arm || m.ret.kind === "struct") { const sdef = spec.outs.find((s) => s.name === m.ret.ty); let k = 0; for (let si = 0; si < NSLOT && k < sdef.fields.length; si++) if (!types[si]) { if ((keepMask >> k) & 1) types[si] = sdef.fields[k].ty; k++; } }
     } else if (arm || m.ret.kind === "box" || m.ret.kind === "ref") types[dst] = m.ret.ty;
+    else if (m.ret.kind === "reserr") types[dst] = m.ret.err.ty;
   }
   return { seed, bridge, run, ops };
 }
@@ -414,6 +424,12 @@ async function execute(spec, classes, trace) {
         const r = doCall(() => (m.special === "constructor" ? new classes[m.owner](...jsArgs) : m.special === "getter" ? selfH.w[m.name] : m.static ? classes[m.owner][m.name](...jsArgs) : selfH.w[m.name](...jsArgs)));
         if (m.special) inc("special_method_" + m.special);
         W.pendingCall = null;
+        if (r.err && W.lastReturnIsErr && W.lastReturn && r.err.cause && typeof r.err.cause === "object") {
+          // Result<_, Box<E>>: the binding throws an Error whose `cause` is E's wrapper; the program keeps it
+          held[op.dst] = { w: r.err.cause, ent: W.lastReturn }; inc("error_payload_wrapper_kept"); line += " -> err payload kept";
+          r.err = null; r.v = null; W.lastReturn = null;
+        }
+        W.lastReturnIsErr = false;
         if (r.err) { inc("call_threw"); line += " threw " + String(r.err.message).slice(0, 60); break; }
         if (r.v != null && W.lastReturn && W.lastReturn.kind === "struct") {
           // a by-value struct of borrowed fields: the program keeps the field wrappers (public getters)
@@ -426,7 +442,7 @@ async function execute(spec, classes, trace) {
             else if (ent && fw) { inc("struct_field_wrapper_not_kept"); si--; }
           }
         } else if (r.v != null && W.lastReturn) held[op.dst] = { w: r.v, ent: W.lastReturn };
-        else line += " -> null";
+        else if (!held[op.dst]) line += " -> null";
         if (op.dropArgs) {
           const keep = new Set(); // slots that received (part of) the result
           if (W.lastReturn && W.lastReturn.kind === "struct") { for (let si = 0; si < NSLOT; si++) if (held[si] && W.lastReturn.fields.includes(held[si].ent)) keep.add(si); } else keep.add(op.dst);
